@@ -145,6 +145,11 @@ def run_single(text, optargs=(), name="case.pdb", as_path=False, write_pka=True,
     t0 = time.time()
     cwd = os.getcwd()
     tmp = workdir or tempfile.mkdtemp(prefix="vpobs-")
+    if not as_path and name == "case.pdb" and os.environ.get("VERIF_AMBIENT", "1") != "0":
+        # ambient variation: every fourth input (decided by its content, so a replay repeats it) is
+        # handed over as a file on disk instead of a text stream - the two doors must be equivalent
+        import zlib
+        as_path = zlib.crc32(text.encode()) % 4 == 0
     try:
         os.chdir(tmp)
         with capture_logs(log_level, debug_iterative) as h:
